@@ -123,8 +123,8 @@ def coreFresh (kind : CrashCore.Kind) (d : CrashCore.Db) : Prop := CrashCore.fre
 /-- **hand_sequence_matches_source.**  The effect sequences the core-level theorems below talk about ARE the
     sequences of durable write steps translated from the current source (`Generated.writeSeq`, regenerated on
     every run by tools/writeseq.py), step by step replaced by their effect on the projection.  A source change
-    that reorders, adds or drops a durable write of one of these calls changes the generated table, this
-    theorem stops checking, and with it every prefix theorem that rewrites with it. -/
+    that reorders, adds or drops a durable write of one of these calls changes the generated table; then this
+    statement no longer checks, and with it every prefix statement below that rewrites with it. -/
 theorem hand_sequence_matches_source :
     CrashCore.writes .application = [.saveSecret, .consume, .saveMsg, .savePm 1, .setPtr] ∧
     CrashCore.writes .commit = [.saveSecret, .consume, .snapshot, .bumpMls, .saveSecret, .syncRecord, .savePm 2] ∧
